@@ -48,6 +48,10 @@ type FindCase struct {
 	// StalePWD (binary leg only): the environment variable PWD names another level of the chain
 	// than the directory the process is started in (make -C, env -C, exec with Dir but old Env)
 	StalePWD int `json:"stale_pwd,omitempty"` // level + 1; 0 = PWD is accurate
+	// RelFrom (in-process only): level + 1 of the working directory from which the start directory is
+	// given as a relative path (0 = absolute, as spok itself always calls Find). Only termination is
+	// demanded there: no caller of Find passes a relative path, what it should find is not laid down.
+	RelFrom int `json:"rel_from,omitempty"`
 }
 
 func (c FindCase) dirs(base string) []string {
@@ -141,6 +145,22 @@ func execFind(s *ev.Shard, base string, c FindCase) *rp.Fail {
 		stop = dirs[c.Stop]
 	}
 	size := len(c.Cfg)*3 + c.Start
+	if c.RelFrom > 0 && c.RelFrom-1 <= c.Start {
+		old, _ := os.Getwd()
+		defer os.Chdir(old)
+		if err := os.Chdir(dirs[c.RelFrom-1]); err != nil {
+			return &rp.Fail{Sig: "harness", Msg: err.Error()}
+		}
+		rel, err := filepath.Rel(dirs[c.RelFrom-1], start)
+		if err != nil {
+			return &rp.Fail{Sig: "harness", Msg: err.Error()}
+		}
+		_, _ = file.Find(nopLogger{}, rel, stop) // must return; the shard's watchdog sees to that
+		if s != nil {
+			s.Class("relative_start_directory")
+		}
+		return nil
+	}
 	got, err := file.Find(nopLogger{}, start, stop)
 	desc := fmt.Sprintf("chain %v children %v, start level %d, stop %s", c.Cfg, c.Child, c.Start, map[bool]string{true: "unrelated directory", false: fmt.Sprintf("level %d", c.Stop)}[c.Stop < 0])
 	if err == nil {
